@@ -45,8 +45,10 @@ package keeper
 //@ end
 
 // SubBalance has no guard of its own: its callers must have established that the balance covers the amount.
+// (C12 too: a balance that reaches zero stays recorded as zero - export lists it, and genesis validation requires every
+// token of a class to appear among the owners' balances)
 //@ func Keeper.SubBalance
-//@   property C15
+//@   property C12, C15
 //@   requires BAL(addr, denomID, mtID) >= amount
 //@   let b0 = BAL(addr, denomID, mtID)
 //@   modifies balances
